@@ -456,3 +456,166 @@ func init() {
 			Old: "	var lastErr error\n	maxRetries := len(endpoints)", New: "	if len(bodyBytes) > 64<<20 {\n		return fmt.Errorf(\"request too large for retry buffer\")\n	}\n	var lastErr error\n	maxRetries := len(endpoints)"},
 	)
 }
+
+// ---- rules added after the second wave of seeded changes ----
+
+func init() {
+	registerExtra("C01", func(c *Ctx, r *Report) { extraBodyPreserver(c, r, "C01-R7") })
+	registerExtra("C04", func(c *Ctx, r *Report) { extraBodyPreserver(c, r, "C04-R7") })
+	registerExtra("C07", extraC07)
+	registerExtra("C08", extraC08)
+	registerExtra("C06", func(c *Ctx, r *Report) {
+		r.WithAlias(map[string]string{"C19-R7": "C06-R5"}, func() { checkC19(c, r) })
+	})
+}
+
+// extraBodyPreserver: the function whose result is replayed on retry returns "no bytes" only when there is no body.
+func extraBodyPreserver(c *Ctx, r *Report, rule string) {
+	r.Rule(rule, "the function that reads the request body once for replay on retry returns a nil byte slice with a nil error only under the fact that the request has no body (r.Body == nil or == http.NoBody); any other 'skip buffering' exit makes a later attempt send a consumed body", 1)
+	loopFn, _ := retryLoopFunc(c)
+	if loopFn == nil {
+		r.Unresolved(rule, "retry loop")
+		return
+	}
+	var preserver *ssa.Function
+	eachInstr(loopFn, func(in ssa.Instruction) {
+		call, ok := in.(*ssa.Call)
+		if !ok || inLoop(call.Block()) {
+			return
+		}
+		sc := call.Call.StaticCallee()
+		if sc == nil || !c.inRepo(sc) || sc.Signature.Results().Len() != 2 {
+			return
+		}
+		if sl, ok := sc.Signature.Results().At(0).Type().Underlying().(interface{ Elem() interface{ String() string } }); ok {
+			_ = sl
+		}
+		if sc.Signature.Results().At(0).Type().String() == "[]byte" && sc.Signature.Results().At(1).Type().String() == "error" {
+			preserver = sc
+		}
+	})
+	if preserver == nil {
+		r.Unresolved(rule, "body-preserving function called before the retry loop")
+		return
+	}
+	for _, ret := range returnsOf(preserver) {
+		res := retResults(ret)
+		if !isNilConst(res[0]) || !isNilConst(res[1]) {
+			continue
+		}
+		key := fmt.Sprintf("%s:nil-bytes-return#%s", fname(preserver), retKey(c, preserver, ret))
+		absent := false
+		// `r.Body == nil || r.Body == http.NoBody` : the return block is entered from tests on Request.Body only
+		bodyTest := func(v ssa.Value) bool {
+			bo, ok := v.(*ssa.BinOp)
+			return ok && bo.Op == token.EQL && mentionsField(bo.X, "net/http", "Request", "Body", 3)
+		}
+		for _, cf := range condFacts(ret.Block()) {
+			if cf.True && bodyTest(cf.Cond) {
+				absent = true
+			}
+		}
+		if !absent && len(ret.Block().Preds) >= 1 {
+			all := true
+			for _, p := range ret.Block().Preds {
+				ifi, ok := lastInstr(p).(*ssa.If)
+				if !ok || p.Succs[0] != ret.Block() || !bodyTest(ifi.Cond) {
+					all = false
+				}
+			}
+			absent = all
+		}
+		if absent {
+			r.OK(rule, key, retPos(preserver, ret), "no bytes only when the request has no body")
+		} else {
+			r.Bad(rule, key, retPos(preserver, ret), "the body is not buffered for replay on a path where the request does have a body (size/type shortcut): after a failed first attempt the next candidate receives a consumed or closed body")
+		}
+	}
+	addMutants(Mutant{Prop: strings.Split(rule, "-")[0], Name: "large-body-not-buffered", File: "internal/adapter/proxy/core/retry.go", Rule: rule,
+		Old: "	bodyBytes, err := io.ReadAll(r.Body)\n	if err != nil {", New: "	if r.ContentLength > 1<<20 {\n		return nil, nil\n	}\n	bodyBytes, err := io.ReadAll(r.Body)\n	if err != nil {"})
+}
+
+func extraC07(c *Ctx, r *Report) {
+	r.Rule("C07-R6", "the goroutine that runs the recovery callback derives its context from context.Background (with a timeout), not from the health-check round's context, which is cancelled as soon as the round's checks return", 1)
+	for _, f := range c.Funcs {
+		eachInstr(f, func(in ssa.Instruction) {
+			cc := getCall(in)
+			if cc == nil || !cc.IsInvoke() || cc.Method.Name() != "OnEndpointRecovered" {
+				return
+			}
+			key := fname(f) + ":callback-context"
+			v := cc.Args[0]
+			detached := false
+			for d := 0; d < 5 && v != nil; d++ {
+				switch x := v.(type) {
+				case *ssa.Extract:
+					v = x.Tuple
+				case *ssa.Call:
+					ci := describeCall(&x.Call)
+					if ci.Pkg == "context" && (ci.Name == "Background" || ci.Name == "TODO") {
+						detached = true
+						v = nil
+					} else if ci.Pkg == "context" && strings.HasPrefix(ci.Name, "With") {
+						v = x.Call.Args[0]
+					} else {
+						v = nil
+					}
+				default:
+					v = nil
+				}
+			}
+			if detached {
+				r.OK("C07-R6", key, in.Pos(), "re-discovery runs under its own context (Background + timeout)")
+			} else {
+				r.Bad("C07-R6", key, in.Pos(), "the recovery callback inherits the health-check round's context: the round cancels it as soon as its checks return, so the re-discovery a recovery promises is aborted")
+			}
+		})
+	}
+	addMutants(Mutant{Prop: "C07", Name: "callback-inherits-round-context", File: "internal/adapter/health/checker.go", Rule: "C07-R6",
+		Old: "callbackCtx, cancel := context.WithTimeout(context.Background(), DefaultRecoveryCallbackTimeout)", New: "callbackCtx, cancel := context.WithTimeout(ctx, DefaultRecoveryCallbackTimeout)"})
+}
+
+func extraC08(c *Ctx, r *Report) {
+	r.Rule("C08-R7", "in the health breaker's IsOpen, the branch taken when the half-open slot is already held must not answer a constant: it has to depend on how long ago the slot was taken, because an admitted probe may exit without recording an outcome (cancelled during retry, panic) and would otherwise hold the slot — and keep the breaker shut — for ever", 1)
+	fn := c.Fn(pkgHealth, "(*CircuitBreaker).IsOpen")
+	if fn == nil {
+		r.Unresolved("C08-R7", "health.(*CircuitBreaker).IsOpen")
+		return
+	}
+	var cas *ssa.Call
+	eachInstr(fn, func(in ssa.Instruction) {
+		if call, ok := in.(*ssa.Call); ok {
+			ci := describeCall(&call.Call)
+			if ci.Pkg == "sync/atomic" && strings.HasPrefix(ci.Name, "CompareAndSwap") && isField(call.Call.Args[0], pkgHealth, "circuitState", "lastAttempt") {
+				cas = call
+			}
+		}
+	})
+	key := fname(fn) + ":stale-slot-release"
+	if cas == nil {
+		r.Undecided("C08-R7", key, fn.Pos(), "half-open slot acquisition (CAS on lastAttempt) not found")
+		return
+	}
+	bad := false
+	found := false
+	for _, ret := range returnsOf(fn) {
+		for _, cf := range condFacts(ret.Block()) {
+			if cf.Cond == ssa.Value(cas) && !cf.True {
+				found = true
+				if _, isK := ret.Results[0].(*ssa.Const); isK {
+					bad = true
+				}
+			}
+		}
+	}
+	switch {
+	case !found:
+		r.Undecided("C08-R7", key, cas.Pos(), "no return on the slot-already-held branch")
+	case bad:
+		r.Bad("C08-R7", key, cas.Pos(), "when the half-open slot is already held IsOpen answers a constant: a probe that was admitted and then abandoned (cancelled while waiting to retry, or panicked) never releases the slot, so the endpoint is never probed again")
+	default:
+		r.OK("C08-R7", key, cas.Pos(), "slot-held branch answers from the age of the held slot (stale slots are released)")
+	}
+	addMutants(Mutant{Prop: "C08", Name: "stale-slot-never-released", File: "internal/adapter/health/circuit_breaker.go", Rule: "C08-R7",
+		Old: "			lastAttempt := atomic.LoadInt64(&state.lastAttempt)\n			return time.Unix(0, lastAttempt).Add(time.Second).After(time.Now())", New: "			return true"})
+}
